@@ -76,8 +76,8 @@ func init() {
 	propSpecs = []*PropSpec{
 		{
 			ID:          "C01",
-			Rules:       []RuleUse{use("R-DISPATCH", "v5"), use("R-REPLACE", "v5"), use("R-MOVE", "v5"), use("R-COPYISO", "v5"), use("R-TYPESTATE", "v5")},
-			Explanation: "Decided for the v5 body: R-DISPATCH (all six RFC 6902 operations reach the handler with that operation's container effects; validator table = RFC 6902 §4; verdict cannot be bypassed), R-REPLACE (replace requires the target to exist), R-MOVE (move = get, remove of the same container/key, destination resolved after the removal, add of that same value), R-COPYISO (copy inserts a fresh deep duplicate, never an alias), R-TYPESTATE (a null root is held as a nil container that every later operation rejects instead of dereferencing).",
+			Rules:       []RuleUse{use("R-DISPATCH", "v5"), use("R-TOKEN", "v5"), use("R-TOKTAB", "v5"), use("R-REPLACE", "v5"), use("R-MOVE", "v5"), use("R-COPYISO", "v5"), use("R-TYPESTATE", "v5")},
+			Explanation: "Decided for the v5 body: R-DISPATCH (all six RFC 6902 operations reach the handler with that operation's container effects; validator table = RFC 6902 §4; verdict cannot be bypassed), R-TOKEN + R-TOKTAB (every reference token obtained by splitting a path is decoded exactly once, by a decoder whose table and order are RFC 6901's, on every route to a member lookup, insertion or removal), R-REPLACE (replace requires the target to exist), R-MOVE (move = get, remove of the same container/key, destination resolved after the removal, add of that same value), R-COPYISO (copy inserts a fresh deep duplicate, never an alias), R-TYPESTATE (a null root is held as a nil container that every later operation rejects instead of dereferencing).",
 			NotDecided:  "that the resulting values equal the RFC 6902 result (value-level: needs the contents of the lazily parsed byte slices); the null-equivalence clause (add null then test null); index semantics beyond range safety.",
 			Trusted:     commonTrusted, Assumptions: commonAssumptions,
 		},
@@ -97,8 +97,8 @@ func init() {
 		},
 		{
 			ID:          "C04",
-			Rules:       []RuleUse{use("R-GATE", "v5", "codec"), use("R-NIL"), use("R-TYPESTATE"), use("R-RAW"), use("R-STALERAW"), use("R-DISPATCH"), use("R-REPLACE")},
-			Explanation: "Decided for both library bodies, as a census of potential panic sites: R-GATE (every exported []byte parameter passes json.Valid before any validity-assuming parse, which panics on ill-formed text), R-NIL (every dereference of a node/container/raw message that may be the nil spelling of null is guarded on every path), R-TYPESTATE (which==eDoc implies a non-nil doc; a nil array container is confined to the root slot and scratch nodes and every consumer tests for it), R-RAW (raw is dereferenced only where it cannot be nil), R-STALERAW (raw bytes are re-read as content only while the node is unparsed), R-DISPATCH (handlers dereference only the members the validator requires for their kind), R-REPLACE (set on an array only after a successful get of the same slot, which is what bounds its index).",
+			Rules:       []RuleUse{use("R-GATE", "v5", "codec"), use("R-NIL"), use("R-TYPESTATE"), use("R-RAW"), use("R-STALERAW"), use("R-DISPATCH"), use("R-REPLACE"), use("R-COPYISO")},
+			Explanation: "Decided for both library bodies, as a census of potential panic sites: R-GATE (every exported []byte parameter passes json.Valid before any validity-assuming parse, which panics on ill-formed text), R-NIL (every dereference of a node/container/raw message that may be the nil spelling of null is guarded on every path), R-TYPESTATE (which==eDoc implies a non-nil doc; a nil array container is confined to the root slot and scratch nodes and every consumer tests for it), R-RAW (raw is dereferenced only where it cannot be nil), R-STALERAW (raw bytes are re-read as content only while the node is unparsed), R-DISPATCH (handlers dereference only the members the validator requires for their kind), R-REPLACE (set on an array only after a successful get of the same slot, which is what bounds its index), R-COPYISO (copy never inserts an alias of the source, so no operation sequence can make a value contain itself — the encoder would never return on a cyclic document).",
 			NotDecided:  "termination and stack exhaustion; panics inside the inherited decoder/encoder and reflect on well-formed input (trusted codec contract); run-time out-of-memory.",
 			Trusted:     commonTrusted, Assumptions: commonAssumptions,
 		},
@@ -145,6 +145,13 @@ func init() {
 			Trusted:     commonTrusted, Assumptions: commonAssumptions,
 		},
 		{
+			ID:          "C14",
+			Rules:       []RuleUse{{Rule: "R-TOKEN", Bodies: []string{"v5"}, KeyHas: []string{"ensurePathExists", "(Patch).add", "findObject"}}, use("R-TOKTAB", "v5"), {Rule: "R-NIL", Bodies: []string{"v5"}, KeyHas: []string{"ensurePathExists"}}, {Rule: "R-TYPESTATE", Bodies: []string{"v5"}, KeyHas: []string{"ensurePathExists"}}, {Rule: "R-RAW", Bodies: []string{"v5"}, KeyHas: []string{"ensurePathExists"}}},
+			Explanation: "Decided for the v5 body: R-TOKEN + R-TOKTAB (the names of the members that ensurePathExists looks up and creates are the reference tokens decoded exactly once with the RFC 6901 table; padding uses generated indices), R-NIL + R-TYPESTATE + R-RAW over ensurePathExists (no nil node, nil array container or nil raw message is dereferenced while walking and creating the path).",
+			NotDecided:  "that afterwards the value is found at the path, the padding count, and the frame condition (value-level).",
+			Trusted:     commonTrusted, Assumptions: commonAssumptions,
+		},
+		{
 			ID:          "C16",
 			Rules:       []RuleUse{use("R-GATE", "v5", "codec")},
 			Explanation: "Decided: R-GATE (every public v5 entry point consults json.Valid on each []byte parameter before parsing; the invalid edge returns an error / false).",
@@ -153,8 +160,8 @@ func init() {
 		},
 		{
 			ID:          "C18",
-			Rules:       []RuleUse{use("R-DISPATCH", "legacy"), use("R-REPLACE", "legacy"), use("R-MOVE", "legacy"), use("R-COPYISO", "legacy"), {Rule: "R-NIL", Bodies: []string{"legacy"}, KeyHas: []string{"(Patch)", "(*partial", "findObject", "(*lazyNode)", "deepCopy", "newLazyNode", "(Operation)"}}, use("R-RAW", "legacy"), use("R-STALERAW", "legacy"), use("R-RETSHAPE", "legacy"), use("R-ERRCHAIN", "legacy")},
-			Explanation: "Decided on the legacy body (which no baseline test compiles): R-DISPATCH (a) (six kinds reach their handlers, unknown kind is an error), R-REPLACE, R-MOVE, R-COPYISO, R-NIL + R-RAW + R-STALERAW (no nil-node or nil-raw dereference), R-RETSHAPE (no document with an error; first failure ends the loop), R-ERRCHAIN (a failed test yields ErrTestFailed and nothing else does; unreachable parents and absent members yield ErrMissing).",
+			Rules:       []RuleUse{use("R-DISPATCH", "legacy"), use("R-TOKEN", "legacy"), use("R-TOKTAB", "legacy"), use("R-REPLACE", "legacy"), use("R-MOVE", "legacy"), use("R-COPYISO", "legacy"), {Rule: "R-NIL", Bodies: []string{"legacy"}, KeyHas: []string{"(Patch)", "(*partial", "findObject", "(*lazyNode)", "deepCopy", "newLazyNode", "(Operation)"}}, use("R-RAW", "legacy"), use("R-STALERAW", "legacy"), use("R-RETSHAPE", "legacy"), use("R-ERRCHAIN", "legacy")},
+			Explanation: "Decided on the legacy body (which no baseline test compiles): R-DISPATCH (a) (six kinds reach their handlers, unknown kind is an error), R-TOKEN + R-TOKTAB (reference tokens decoded exactly once, RFC 6901 table), R-REPLACE, R-MOVE, R-COPYISO, R-NIL + R-RAW + R-STALERAW (no nil-node or nil-raw dereference), R-RETSHAPE (no document with an error; first failure ends the loop), R-ERRCHAIN (a failed test yields ErrTestFailed and nothing else does; unreachable parents and absent members yield ErrMissing).",
 			NotDecided:  "value-level RFC 6902 equivalence.",
 			Trusted:     commonTrusted, Assumptions: commonAssumptions,
 		},
